@@ -159,7 +159,7 @@ func runC07(e *Env) Outcome {
 		e.Count("docs_deep_nesting", 1)
 	default:
 		o := gen.DrawOpts(t)
-		if mode == 6 {
+		if mode >= 5 {
 			// struct-shaped document: a top-level map with keys k1, k2, ... whose
 			// values are anything (markers, references - also into the container
 			// being marked - nested containers, arrays), read into struct templates
